@@ -165,6 +165,21 @@ func checkC12(c *Ctx) {
 			Source: pc.Src1, Opts: &o, Key: c12Key(pc),
 			Detail: map[string]interface{}{"resolved_source": pc.Src2, "output": pc.R1.Out, "error": fmt.Sprint(pc.R1.Err), "resolved_output": pc.R2.Out, "wrappers": pc.Wrappers}})
 	}
+	// statements after a case that ends in `continue`
+	{
+		progs, srcs, os := contAfterPS()
+		var rc []*RefCase
+		rejected := 0
+		for i := range progs {
+			compileBoth(c, progs[i].Scripts[0].Name, progs[i], srcs[i], os[i], &rc, &rejected)
+		}
+		if rejected > 0 {
+			c.Violate(Violation{What: fmt.Sprintf("%d programs with statements after a poryswitch case ending in continue were rejected", rejected), Source: srcs[0]})
+		}
+		st := RunRefine(c, rc, 6000, "statements after a poryswitch case that ends in continue: the output does not behave like the resolved body", nil)
+		states += st.States
+		c.Cov("continue_in_case_programs", int64(st.Cases))
+	}
 	c.Cov("programs", int64(len(recs)))
 	c.Cov("disagreements_checked", int64(len(bad)))
 	c.Cov("poryswitch_nodes", int64(nwrap))
@@ -178,4 +193,62 @@ func errOrNil(failed bool, msg string) error {
 		return errors.New(strings.TrimSpace(msg))
 	}
 	return nil
+}
+
+// contAfterPS: poryswitch is the only way to write statements after `continue` (the case ends with
+// it, the block goes on).  The resolved form is not a program the parser accepts, so the pairing
+// cannot be used; the product decides instead: source side = the resolved body, target = the real
+// output for the program written with poryswitch.
+func contAfterPS() (progs []*Prog, srcs []string, opts []Opts) {
+	flag := func(n string) *Expr { return &Expr{K: "leaf", Typ: "flag", Opnd: n, Form: "bare"} }
+	k := 0
+	for _, loop := range []string{"while", "whileinf", "dowhile"} {
+		for _, tail := range []string{"cmd", "label", "none", "if"} {
+			for _, via := range []string{"match", "default"} {
+				k++
+				name := fmt.Sprintf("CP%d", k)
+				cont := []Stmt{{K: "cmd", Toks: []string{"inside"}}, {K: "continue"}}
+				other := []Stmt{{K: "cmd", Toks: []string{"other"}}}
+				ps := Stmt{K: "poryswitch", V: "GAME"}
+				if via == "match" {
+					ps.PCases = []PCase{{Val: "RUBY", Brace: true, Body: cont}, {Val: "_", Brace: true, Body: other}}
+				} else {
+					ps.PCases = []PCase{{Val: "EMERALD", Brace: k%2 == 0, Body: other}, {Val: "_", Brace: true, Body: cont}}
+				}
+				lab := name + "_L"
+				pre := []Stmt{{K: "cmd", Toks: []string{"top"}},
+					{K: "if", Arms: []Arm{{Cond: flag("FLAG_B"), Body: []Stmt{{K: "cmd", Toks: []string{"goto", lab}}}}}}}
+				var rest []Stmt
+				switch tail {
+				case "cmd":
+					rest = []Stmt{{K: "cmd", Toks: []string{"dead"}}, {K: "label", Name: lab}, {K: "cmd", Toks: []string{"viaLabel"}}}
+				case "label":
+					rest = []Stmt{{K: "label", Name: lab}, {K: "cmd", Toks: []string{"viaLabel"}}, {K: "break"}}
+				case "if":
+					rest = []Stmt{{K: "if", Arms: []Arm{{Cond: flag("FLAG_C"), Body: []Stmt{{K: "label", Name: lab}, {K: "cmd", Toks: []string{"viaLabel"}}}}}}, {K: "cmd", Toks: []string{"dead2"}}}
+				default:
+					pre = pre[:1]
+				}
+				mk := func(mid []Stmt) []Stmt {
+					body := append(append(append([]Stmt{}, pre...), mid...), rest...)
+					var l Stmt
+					switch loop {
+					case "while":
+						l = Stmt{K: "while", HasCond: true, Cond: flag("FLAG_A"), Body: body}
+					case "whileinf":
+						l = Stmt{K: "while", Body: append(body, Stmt{K: "cmd", Toks: []string{"end"}})}
+					default:
+						l = Stmt{K: "dowhile", Cond: flag("FLAG_A"), Body: body}
+					}
+					return []Stmt{l, {K: "cmd", Toks: []string{"after"}}}
+				}
+				written := &Prog{Scripts: []Script{{Name: name, Body: mk([]Stmt{ps})}}}
+				resolved := &Prog{Scripts: []Script{{Name: name, Body: mk(cont)}}}
+				progs = append(progs, resolved)
+				srcs = append(srcs, RenderProg(written, Style{}))
+				opts = append(opts, Opts{Switches: map[string]string{"GAME": "RUBY"}})
+			}
+		}
+	}
+	return
 }
